@@ -401,6 +401,81 @@ theorem epoch_payout_total {p : Params} {parent c' : Checkpoint} {bs : List (CBl
     (by intro k; simpa [newCheckpoint, kget] using hw k)
   simpa [newCheckpoint, totalTable] using this
 
+/-! ### table entries are non-zero (discharges the hypothesis of `first_pays_table`) -/
+
+theorem mem_keys_iff_of_kget_eq {m m' : KMap} {k : Key} (h : kget m' k = kget m k) : k ∈ kkeys m' ↔ k ∈ kkeys m := by
+  constructor
+  · intro hk; by_contra c
+    rw [← kget_none_iff] at c; rw [c, kget_none_iff] at h; exact h hk
+  · intro hk; by_contra c
+    rw [← kget_none_iff] at c; rw [c] at h; exact (kget_none_iff _ _).mp h.symm hk
+
+/-- every key of the table after a run of blocks was already there or is named by a block -/
+theorem grow_keys {p : Params} : ∀ {bs : List (CBlock × Nat)} {c c' : Checkpoint},
+    grow p c bs = .ok c' → Bounded c.rewards → (kkeys c.rewards).Nodup →
+    ∀ k, k ∈ kkeys c'.rewards → k ∈ kkeys c.rewards ∨ ∃ x ∈ bs, scriptOf x.1 = some k
+  | [], c, c', h, _, _ => by
+    simp only [grow] at h; injection h with h; subst h
+    intro k hk; exact Or.inl hk
+  | (b, sub) :: t, c, c', h, hb, hn => by
+    simp only [grow] at h
+    split at h
+    · rename_i c1 h1
+      obtain ⟨P, hP, _, a2, a3, a4⟩ := reward_step h1 hb hn
+      intro k hk
+      rcases grow_keys h a3 a4 k hk with e | ⟨x, hx, hs⟩
+      · by_cases ek : P = k
+        · subst ek; exact Or.inr ⟨(b, sub), by simp, hP⟩
+        · exact Or.inl ((mem_keys_iff_of_kget_eq (a2 k ek)).mp e)
+      · exact Or.inr ⟨x, List.mem_cons_of_mem _ hx, hs⟩
+    · cases h
+    · cases h
+
+theorem earned_pos {k : Key} : ∀ {bs : List (CBlock × Nat)}, (∀ x ∈ bs, 0 < x.2) → (∃ x ∈ bs, scriptOf x.1 = some k) →
+    0 < earned k bs
+  | [], _, ⟨x, hx, _⟩ => by simp at hx
+  | (b, sub) :: t, hs, ⟨x, hx, hk⟩ => by
+    simp only [earned]
+    rcases List.mem_cons.mp hx with e | e
+    · subst e
+      have := hs (b, sub) (by simp)
+      simp only at hk this
+      simp only [hk, if_true]; omega
+    · have := earned_pos (fun y hy => hs y (List.mem_cons_of_mem _ hy)) ⟨x, e, hk⟩
+      omega
+
+/-- with positive subsidies (the code's is ≥ BlockReward/2) and no uint64 wrap, every entry of
+    an epoch's table is non-zero -/
+theorem epoch_entries_nonzero {p : Params} {parent c' : Checkpoint} {bs : List (CBlock × Nat)}
+    (hg : grow p (newCheckpoint parent) bs = .ok c') (hsub : ∀ x ∈ bs, 0 < x.2) (hw : ∀ k, earned k bs < u64) :
+    ∀ e ∈ c'.rewards, e.2 ≠ 0 := by
+  obtain ⟨ht, _, hn⟩ := epoch_table hg
+  intro e he
+  have hk : e.1 ∈ kkeys c'.rewards := List.mem_map.mpr ⟨e, he, rfl⟩
+  have hnamed := grow_keys hg (by simp [newCheckpoint]; exact bounded_nil) (by simp [newCheckpoint, kkeys]) e.1 hk
+  rcases hnamed with c | c
+  · simp [newCheckpoint, kkeys] at c
+  · have hpos := earned_pos hsub c
+    have hv := ht e.1
+    rw [mem_kget hn (a := e.1) (v := e.2) he, Nat.mod_eq_of_lt (hw e.1)] at hv
+    simp only [Option.getD_some] at hv
+    omega
+
+/-- **History step, assumption-free form**: positive subsidies, no uint64 wrap of any entry,
+    coinbase outputs not wrapping (C01) ⇒ the accepted first coinbase of the next epoch creates
+    exactly Σ (fees + subsidy) of the finished epoch. -/
+theorem epoch_payout_exact {p : Params} {parent c' : Checkpoint} {bs : List (CBlock × Nat)}
+    {h : Nat} {hasTx : Bool} {outs : List COut}
+    (hg : grow p (newCheckpoint parent) bs = .ok c') (hsub : ∀ x ∈ bs, 0 < x.2) (hw : ∀ k, earned k bs < u64)
+    (hok : checkCoinbaseAmount p h hasTx outs c'.rewards = .ok ()) (hh : h % p.epoch = 1)
+    (hsum : ∀ k, paid k 0 outs < u64) :
+    totalOut outs = earnedAll bs ∧ ∀ k, paid k 0 outs = earned k bs := by
+  have hz := epoch_entries_nonzero hg hsub hw
+  refine ⟨epoch_payout_total hg hw hok hh hz hsum, ?_⟩
+  obtain ⟨ht, _, hn⟩ := epoch_table hg
+  intro k
+  rw [first_pays_table_exact hok hh hn hz hsum k, ht k, Nat.mod_eq_of_lt (hw k)]
+
 /-! ### the proposer's coinbase passes the validator -/
 
 def mkOut (e : Key × Nat) : COut := { original := true, btm := true, amount := e.2, program := e.1 }
